@@ -420,3 +420,48 @@ register(Contract(
     modifies={'components_', 'preprocessor_', 'n_features_in_', 'n_iter_'},
     prop=['C03', 'C15', 'C17']))
 C.unit('C03', 'scml:_BaseSCML._fit')
+
+
+# LFDA: the neighbour index used for the local scale of class c is a function of the configured k and of that class's size only
+def _lfda_k_not_carried(a, ev, r):
+  ws = [e for e in ev if e[0] == 'loop-writes' and e[1] == 'lfda:LFDA.fit' and e[2] == 0]
+  return z3.BoolVal(bool(ws) and all('k' not in e[3] for e in ws))
+
+
+REGISTRY['lfda:LFDA.fit'].events['local-scale-index-not-carried-across-classes'] = _lfda_k_not_carried
+
+
+# LSML: shape-level contracts of the loss and gradient, with the dataflow clause "the weights reach the search direction"
+def lsml_state(extra=None):
+  attrs = {'w_': Arr(1, owner=frozenset(), dims=['n']), 'prior': Str('identity'), 'tol': Real(), 'max_iter': Int(1), 'verbose': Const(VBool(False)),
+           'random_state': NoneT(), 'preprocessor': NoneT()}
+  return Obj('LSML', attrs, closed=True)
+
+
+def reads_weights(a, ev, r):
+  return z3.BoolVal(any(e[0] == 'getattr' and e[2] == 'w_' for e in ev))
+
+
+_mats = dict(metric=Arr(2, dims=['d', 'd']), vab=Arr(2, dims=['n', 'd']), vcd=Arr(2, dims=['n', 'd']), prior_inv=Arr(2, dims=['d', 'd']))
+register(Contract(
+    'lsml:_BaseLSML._gradient',
+    cases=[Case('g', dict(_mats, self=lsml_state()))],
+    ensures={'shape-(d,d)': lambda a, r: z3.And(r.ndim == 2, r.dim(0) == a.metric.dim(0), r.dim(1) == a.metric.dim(1)),
+             'fresh': lambda a, r: z3.BoolVal(len(r.owner) == 0)},
+    # C12: "constraint weights scale each constraint's influence in both the objective and the search direction"
+    events={'constraint-weights-reach-the-search-direction': reads_weights},
+    raises={'LinAlgError': May(), 'ValueError': May()}, modifies=set(),
+    returns=Returns(lambda a, p, ex: p.new_loc(ArrState(fresh('grad', T), Shape(2, [a.metric.dim(0), a.metric.dim(1)]), 'f', frozenset()))),
+    prop=['C12']))
+C.unit('C12', 'lsml:_BaseLSML._gradient')
+
+register(Contract(
+    'lsml:_BaseLSML._comparison_loss',
+    cases=[Case('l', dict(metric=_mats['metric'], vab=_mats['vab'], vcd=_mats['vcd'], self=lsml_state()))],
+    ensures={},
+    events={'constraint-weights-reach-the-objective': reads_weights},
+    raises={'ValueError': May()}, modifies=set(),
+    returns=Returns(lambda a, p, ex: VReal(fresh('closs', z3.RealSort()))),
+    prop=['C12']))
+REGISTRY['lsml:_BaseLSML._comparison_loss#body'] = REGISTRY.pop('lsml:_BaseLSML._comparison_loss')
+C.unit('C12', 'lsml:_BaseLSML._comparison_loss#body')
